@@ -270,6 +270,15 @@ def run_plan(source, timeout=120.0):
     sres['counters']['solo_nonfinite'] = nonfinite
     sres['counters']['solo_rejects'] = sum(1 for x in solo.values() if x[0] == 'exc')
     names = dict((j[0], j[1]) for j in jobs)
+    # soft findings: a solo call rejected a generated (conservatively in-domain) input with an
+    # allowed exception class.  One such event proves nothing (the generator may over-reach); the
+    # batch promotes it to O5.never only when a callable rejected EVERY input of a whole batch.
+    sres['soft'] = [{'oracle': 'O5.never', 'op': k, 'name': names[k], 'detail': {'class': x[1][1], 'msg': x[1][2]}}
+                    for k, x in sorted(solo.items()) if x[0] == 'exc']
+    calls = {}
+    for j in jobs:
+        calls[j[1]] = calls.get(j[1], 0) + 1
+    sres['calls_by_name'] = calls
     sres['rejects'] = [(names[k], x[1][1], x[1][2]) for k, x in sorted(solo.items()) if x[0] == 'exc']
     sres['wall'] = _perf() - t0
     del sres['clones']
